@@ -57,6 +57,8 @@ func init() {
 			{Name: "stream-chunking-recv", Mode: "enum", Reset: kit.ResetGlobals, Body: func() { chunking(tier == "thorough") }, NeedCounters: []string{"split-inside-length-prefix", "split-inside-payload", "one-byte-reads"}},
 			{Name: "stream-send-sizes", Mode: "enum", Reset: kit.ResetGlobals, Body: sendSizes},
 			{Name: "stream-recv-sizes", Mode: "enum", Reset: kit.ResetGlobals, Body: recvSizes},
+			{Name: "stream-every-length", Mode: "enum", Reset: kit.ResetGlobals, Body: func() { EveryLength(map[bool]int{false: 2200, true: 9000}[tier == "thorough"]) }, NeedCounters: []string{"every-length-written-exact", "every-length-received-exact"}},
+			{Name: "stream-long-protocol-headers", Mode: "enum", Reset: kit.ResetGlobals, Body: LongHeaders, NeedCounters: []string{"header-over-32-bytes-written-exact"}},
 			{Name: "stream-limit-changed-after-listen", Mode: "enum", Reset: kit.ResetGlobals, Body: limitAfterListen, NeedCounters: []string{"delivered-at-new-limit"}},
 			{Name: "stream-ends-inside-the-frame-after-a-complete-message", Mode: "enum", Reset: kit.ResetGlobals, Body: truncatedAfterComplete, NeedCounters: []string{"ended-right-after-length-prefix", "ended-inside-payload"}},
 			{Name: "stream-full-duplex", Mode: "sched", Bound: map[string]int{"quick": 2, "thorough": 3}[tier], Reset: kit.ResetGlobals, Body: fullDuplex},
@@ -67,6 +69,8 @@ func init() {
 	vexplore.Register("C15", func(tier string) []*vexplore.Scenario {
 		return []*vexplore.Scenario{
 			{Name: "sp-header-and-framing-all-protocols", Mode: "enum", Reset: kit.ResetGlobals, Body: wireAllProtocols, NeedCounters: []string{"header-exact", "frame-exact"}},
+			{Name: "every-length-framing", Mode: "enum", Reset: kit.ResetGlobals, Body: func() { EveryLength(map[bool]int{false: 2200, true: 9000}[tier == "thorough"]) }, NeedCounters: []string{"every-length-written-exact", "every-length-received-exact"}},
+			{Name: "long-protocol-headers-framing", Mode: "enum", Reset: kit.ResetGlobals, Body: LongHeaders, NeedCounters: []string{"header-over-32-bytes-written-exact"}},
 			{Name: "full-duplex-framing", Mode: "sched", Bound: map[string]int{"quick": 2, "thorough": 3}[tier], Reset: kit.ResetGlobals, Body: fullDuplex},
 			{Name: "frames-arrive-while-a-write-is-stalled", Mode: "enum", Reset: kit.ResetGlobals, Body: duplexStalled, NeedCounters: []string{"stalled-write-exact"}},
 			{Name: "conformant-peer-beside-truncated-or-stalled-handshakes", Mode: "enum", Reset: kit.ResetGlobals, Body: hsTruncated, NeedCounters: []string{"stalled-does-not-delay-others"}},
@@ -756,6 +760,128 @@ func sendSizes() {
 		kit.Failf("stream-bytes-differ", "%s sizes %d,%d,%d: mangos wrote %d bytes, the SP mapping gives %d bytes; first difference at %d", k.Name, sendSz[i], sendSz[j], sendSz[i], len(got), len(want), firstDiff(got, want))
 	}
 	kit.Observe("%s %s %d %d", scheme, k.Name, sendSz[i], sendSz[j])
+	kit.Must("Close", func() { _ = v.x.S.Close() })
+}
+
+// EveryLength: one connection over the real stream pipes (tcp and IPC framing); messages of every
+// length 0..max, ascending or descending, one after the other.  Sending side (PAIR, PUSH, raw PAIR1
+// with its 4 byte header): the bytes written are exactly the SP framing of each message in turn.
+// Receiving side (PAIR, PULL): every frame fed is returned by one Recv, byte for byte.
+func EveryLength(max int) {
+	pickScheme()
+	dir := kit.ChooseFree(2)
+	desc := kit.ChooseFree(2) == 1
+	size := func(i int) int {
+		if desc {
+			return max - i
+		}
+		return i
+	}
+	if dir == 0 {
+		k := kinds.ByName([]string{"pair", "push", "xpair1"}[kit.ChooseFree(3)])
+		v := open(k, -1)
+		h := v.goodPeer("send")
+		off := len(spHeader(v.x.S.Info().Self))
+		for i := 0; i <= max; i++ {
+			sz := size(i)
+			body := pat(i, sz)
+			m := mangos.NewMessage(sz)
+			m.Body = append(m.Body, body...)
+			payload := body
+			if k.Raw {
+				m.Header = append(m.Header, 0, 0, 0, 1)
+				payload = append([]byte{0, 0, 0, 1}, body...)
+			}
+			want := frame(payload)
+			c := kit.Start("Send", func() (interface{}, error) { return nil, v.x.S.SendMsg(m) })
+			kit.Quiesce()
+			if !c.Done() || c.Err != nil {
+				kit.Failf("stream-send", "%s over %s: Send of %d bytes: done=%v %s", k.Name, scheme, sz, c.Done(), kit.ErrName(c.Err))
+			}
+			if got := h.WrittenFrom(off); !bytes.Equal(got, want) {
+				kit.Failf("stream-bytes-differ", "%s over %s: for the message of %d bytes (lengths %s from 0 to %d in turn) mangos wrote %d bytes, the SP mapping gives %d; first difference at offset %d of the frame", k.Name, scheme, sz, map[bool]string{false: "ascending", true: "descending"}[desc], max, len(got), len(want), firstDiff(got, want))
+			}
+			off += len(want)
+		}
+		kit.Count("every-length-written-exact")
+		kit.Observe("send %s %s desc=%v", scheme, k.Name, desc)
+		kit.Must("Close", func() { _ = v.x.S.Close() })
+		return
+	}
+	k := kinds.ByName([]string{"pair", "pull"}[kit.ChooseFree(2)])
+	v := open(k, -1)
+	h := v.goodPeer("recv")
+	for i := 0; i <= max; i++ {
+		sz := size(i)
+		body := pat(i, sz)
+		h.Feed(frame(body))
+		c := kit.Start("Recv", func() (interface{}, error) { return kit.Recv(v.x.S) })
+		kit.Quiesce()
+		if !c.Done() || c.Err != nil {
+			kit.Failf("stream-recv", "%s over %s: a frame of %d bytes was sent: Recv done=%v %s", k.Name, scheme, sz, c.Done(), kit.ErrName(c.Err))
+		}
+		if got := c.Val.([]byte); !bytes.Equal(got, body) {
+			kit.Failf("stream-received-differs", "%s over %s: the message of %d bytes (lengths %s) was received as %d bytes, first difference at offset %d", k.Name, scheme, sz, map[bool]string{false: "ascending", true: "descending"}[desc], len(got), firstDiff(got, body))
+		}
+	}
+	kit.Count("every-length-received-exact")
+	kit.Observe("recv %s %s desc=%v", scheme, k.Name, desc)
+	kit.Must("Close", func() { _ = v.x.S.Close() })
+}
+
+// LongHeaders: a raw socket sends messages whose protocol header is long (a request that has
+// crossed many devices: up to 64 routing words) with bodies of several sizes: the frame written is
+// the length of header plus body, the header, the body - whatever the header's length.
+func LongHeaders() {
+	pickScheme()
+	k := kinds.ByName([]string{"xreq", "xrep", "xsurveyor", "xrespondent"}[kit.ChooseFree(4)])
+	hls := []int{4, 8, 28, 32, 36, 40, 64, 128, 256}
+	bodies := []int{0, 1, 200, 5000}
+	v := open(k, -1)
+	h := v.goodPeer("send")
+	want := append([]byte{}, spHeader(v.x.S.Info().Self)...)
+	var pipeID []byte
+	if k.NeedReq {
+		// raw REP / RESPONDENT route by the leading word: learn the connection's id from a request
+		h.Feed(frame([]byte{0x80, 0, 0, 1, 'q'}))
+		var m *mangos.Message
+		c := kit.Start("Recv", func() (interface{}, error) { var err error; m, err = v.x.S.RecvMsg(); return nil, err })
+		kit.Quiesce()
+		if !c.Done() || c.Err != nil || len(m.Header) < 8 {
+			kit.Failf("setup", "%s: request not received: done=%v %s", k.Name, c.Done(), kit.ErrName(c.Err))
+		}
+		pipeID = append([]byte{}, m.Header[:4]...)
+		m.Free()
+	}
+	n := 0
+	for _, hl := range hls {
+		for _, bl := range bodies {
+			n++
+			hdr := pat(n+40, hl)
+			for i := 0; i+4 <= hl; i += 4 {
+				hdr[i] &= 0x7f
+			}
+			hdr[hl-4] |= 0x80
+			body := pat(n, bl)
+			m := mangos.NewMessage(bl)
+			m.Body = append(m.Body, body...)
+			m.Header = append(m.Header, pipeID...)
+			m.Header = append(m.Header, hdr...)
+			want = append(want, frame(append(append([]byte{}, hdr...), body...))...)
+			c := kit.Start("Send", func() (interface{}, error) { return nil, v.x.S.SendMsg(m) })
+			kit.Quiesce()
+			if !c.Done() || c.Err != nil {
+				kit.Failf("stream-send", "%s over %s: Send with a %d byte header and a %d byte body: done=%v %s", k.Name, scheme, hl, bl, c.Done(), kit.ErrName(c.Err))
+			}
+			if got := h.Written(); !bytes.Equal(got, want) {
+				kit.Failf("stream-bytes-differ", "%s over %s: message with a %d byte protocol header and a %d byte body: mangos has written %d bytes, the SP mapping gives %d; first difference at offset %d", k.Name, scheme, hl, bl, len(got), len(want), firstDiff(got, want))
+			}
+			if hl > 32 {
+				kit.Count("header-over-32-bytes-written-exact")
+			}
+		}
+	}
+	kit.Observe("%s %s", scheme, k.Name)
 	kit.Must("Close", func() { _ = v.x.S.Close() })
 }
 
